@@ -183,14 +183,13 @@ def _identity(repo, rep):
               detail=src(mat[0]) if mat else "")
     ri = repo.cls(TAL + "RepeatItem")
     init = ri.methods["__init__"]
-    t = " ".join(src(s) for s in init.node.body)
+    t = L.text(init.node, body_only=True)
     rep.check("self.length = length" in t and "self._iterator = iterator"
               in t, "R08.1", init.qualname, "the RepeatItem keeps that "
               "iterator and length", construct="item-fields",
               where=L.where(init))
     idx = ri.methods["index"]
-    t = " ".join(src(s) for s in ast.walk(idx.node)
-                 if isinstance(s, ast.stmt))
+    t = L.text(idx.node)
     rep.check("remaining = self._iterator.__length_hint__()" in t, "R08.1",
               idx.qualname, "the position is derived from what remains in "
               "the shared iterator", construct="index-source",
@@ -300,7 +299,7 @@ def _attributes(repo, rep):
                   where=L.where(m), detail=src(v) if v is not None else "")
     # Roman uses index + 1; letters use index
     m = ri.methods["Roman"]
-    t = " ".join(src(s) for s in ast.walk(m.node) if isinstance(s, ast.stmt))
+    t = L.text(m.node)
     rep.check("n = self.index + 1" in t, "R08.3", m.qualname,
               "roman numerals count from 1", construct="roman-base",
               where=L.where(m))
@@ -410,7 +409,7 @@ def _skeleton(repo, rep):
 
 def _whitespace(repo, rep):
     f = repo.func("chameleon.zpt.program.MacroProgram.visit_element")
-    t = " ".join(src(s) for s in ast.walk(f.node) if isinstance(s, ast.stmt))
+    t = L.text(f.node)
     site = f.qualname
     wh = L.where(f)
     rep.check("self._whitespace = '\\n' + ' ' * len(self._last.rsplit('\\n', "
